@@ -52,8 +52,20 @@ type optT struct {
 	D   *string  `json:",omitempty"`
 }
 
+// mbReq is what a MustBind case binds from the query string (binding error on n, validation errors on name / age)
+type mbReq struct {
+	N    int    `query:"n"`
+	Name string `query:"name" validate:"required,min=3"`
+	Age  int    `query:"age" validate:"max=130"`
+}
+
+var mbQueries = []string{"", "?n=abc", "?name=x", "?n=abc&name=x", "?name=ok1&age=200", "?age=999", "?n=1.5&name=alice"}
+
 type callT struct {
-	Kind   string // fail status helper
+	// MB (Kind mustbind): index into mbQueries — the handler calls c.MustBind(&req), which fails with whatever
+	// c.Bind returned (a binding error or a *validation.Error); the error tree is read off that value
+	MB     int    `json:",omitempty"`
+	Kind   string // fail status helper mustbind
 	Status int    `json:",omitempty"`
 	Helper int    `json:",omitempty"`
 	Err    *errT  `json:",omitempty"`
@@ -284,6 +296,7 @@ func isBroken(opts []optT) bool {
 // the state the pre-registered handlers read, one slot per request in flight (header X-Slot)
 type slotT struct {
 	c       *acaseT
+	bindErr error // mustbind: what c.Bind returns for the request (captured by the handler)
 	err     error
 	entered []int
 	aborted bool
@@ -399,6 +412,10 @@ func handlerAt(i int) app.HandlerFunc {
 			curSlot = slotIndex(c.Request)
 			capMu.Unlock()
 			switch k.Call.Kind {
+			case "mustbind":
+				var probe, req mbReq
+				sl.bindErr = c.Bind(&probe)
+				c.MustBind(&req)
 			case "fail":
 				c.Fail(sl.err)
 			case "status":
@@ -545,10 +562,16 @@ type obsT struct {
 	entered []int
 	panic   bool
 	logs    []logRec
+	bindErr error
 }
 
 // nb picks how many of the handlers before the main one are "before" handlers: derived from the case
 func (k acaseT) route() string {
+	if k.Call.Kind == "mustbind" {
+		kk := k
+		kk.Call.Kind = "fail"
+		return kk.route() + mbQueries[k.Call.MB%len(mbQueries)]
+	}
 	nb := (k.Mask >> 8) % (k.Len - 1)
 	if k.Tail != "" {
 		return fmt.Sprintf("/t/%d/%d/%s", k.Len, nb, url.PathEscape(string(k.Tail)))
@@ -624,7 +647,7 @@ func arm(slot int, k *acaseT) {
 
 func observe(slot, st int, ct string, body []byte, panicked bool) obsT {
 	sl := &slots[slot]
-	o := obsT{status: st, ctype: ct, aborted: sl.aborted, entered: append([]int(nil), sl.entered...), panic: panicked}
+	o := obsT{status: st, ctype: ct, aborted: sl.aborted, entered: append([]int(nil), sl.entered...), panic: panicked, bindErr: sl.bindErr}
 	sl.c = nil
 	capMu.Lock()
 	o.logs = append([]logRec(nil), capLogs[slot]...)
@@ -1017,6 +1040,12 @@ func lineA(id string, k acaseT, o obsT, answers []string, st *hx.Stats) string {
 	badSeen = false
 	statuses := map[int]bool{500: true}
 	switch k.Call.Kind {
+	case "mustbind":
+		if o.bindErr == nil {
+			return "# skipped " + id + ": MustBind succeeded, nothing fails"
+		}
+		el.Tok("C")
+		encReal(el, o.bindErr, &depth, &caps, statuses)
 	case "fail":
 		el.Tok("C")
 		encErr(el, *k.Call.Err, &depth, &caps, statuses)
